@@ -25,6 +25,36 @@ def setLast (l : List Bytes) (b : Bytes) : List Bytes := l.dropLast ++ [b]
 /-- `back()` / `pop_back()` on an empty vector is undefined -/
 def nonEmpty (l : List Bytes) : Option Unit := if l.isEmpty then none else some ()
 
+/-- a packet as the decoder produces it: `std::make_shared<Packet>(messageType, data, size)` followed by the three setters the
+    decoder calls.  CONTRACT of the (untranslated) `Packet` constructor, stated here: it reads the 16 message-header bytes at `data` and
+    the declared number of payload bytes behind them (undefined if they are not there) and ignores `size`; what it makes of them is
+    `Packet.ofMsg` of the packet model — `msg` keeps exactly the bytes it read -/
+structure PktOut where
+  mt : Nat
+  msg : Bytes
+  version : Nat := 1
+  deviceId : Nat := 0
+  streamId : Nat := 0
+deriving Repr, Inhabited, DecidableEq
+
+def mkPacket (mt : Nat) (src : Bytes) : Option PktOut :=
+  if 16 ≤ src.length ∧ 16 + beAt src 14 2 ≤ src.length then some { mt := mt, msg := src.take (16 + beAt src 14 2) } else none
+
+/-- `packet->getPayloadLength()` of such a packet: the declared length -/
+def pktPayloadLength (p : PktOut) : Nat := beAt p.msg 14 2
+
+/-- `std::unordered_map<Endpoint, T>` as an association list (one entry per key) -/
+abbrev SMap (α : Type) := List ((Nat × Nat) × α)
+def mapErase (m : SMap α) (k : Nat × Nat) : SMap α := m.filter (fun x => x.1 != k)
+def mapFind (m : SMap α) (k : Nat × Nat) : Option α := (m.find? (fun x => x.1 == k)).map (·.2)
+/-- assignment to the entry of `k` (which exists after `operator[]`) -/
+def mapPut (m : SMap α) (k : Nat × Nat) (v : α) : SMap α := (k, v) :: mapErase m k
+/-- `operator[]`: the entry, default-inserted when absent -/
+def mapIndex (m : SMap α) (k : Nat × Nat) (d : α) : SMap α × α :=
+  match mapFind m k with
+  | some v => (m, v)
+  | none => (mapPut m k d, d)
+
 /-- `memcpy(dest, &object, n)` into a caller's buffer: the `n` bytes copied (undefined if the object is shorter) -/
 def takeExact (b : Bytes) (n : Nat) : Option Bytes := if n ≤ b.length then some (b.take n) else none
 
